@@ -14,6 +14,7 @@ Definition stepN : cacheN -> op -> cacheN * out := step N.eq_dec dfltN encN decN
 Inductive hop :=
 | HPut (k v : N)
 | HRead (k got : N)                                  (* Get(k); got = field of the returned object *)
+| HReadErr (k : N)                                   (* Get(k) returned an error because the decoder failed once (a fault injected by the harness); nothing may change *)
 | HMutate (k v got : N)                              (* Get(k); got = field; then field := v through the pointer *)
 | HPoke (k v : N)                                     (* field := v through the pointer last obtained for k (no Get) *)
 | HDelete (k : N)
@@ -137,6 +138,9 @@ Definition do_hop (keys : list N) (s : st) (h : hop) (ob : obs) : st * list verd
       let (s1, v1) := model_read s0 k got in
       ({| s_mc := s_mc s1; s_sm := fset k (Some (if s_unk s1 k then got else expected)) (s_sm s1); s_wbp := s_wbp s1; s_sigwb := s_sigwb s1;
           s_sigif := s_sigif s1; s_fresh := s_fresh s1; s_unk := fset k false (s_unk s1); s_held := s_held s1 |}, [sv; v1])
+  | HReadErr k =>
+      (* the record must be intact afterwards: nothing changes in the model or in the specification *)
+      (s, [])
   | HMutate k v got =>
       let s0 := touch s k in
       let expected := match s_sm s0 k with Some v => v | None => dfltN k end in
